@@ -1,5 +1,5 @@
 (* C16 property theorems: statements + `exact lemma` only. *)
-From CJ Require Import Common.Base C16.Model C16.Concrete C16.ProofsRead C16.ProofsHb C16.ProofsFc C16.ProofsReg C16.ProofsMat.
+From CJ Require Import Common.Base C16.Model C16.Concrete C16.ProofsRead C16.ProofsHb C16.ProofsHb2 C16.ProofsFc C16.ProofsReg C16.ProofsMat.
 
 (* ------------------------------------------------------------------ *)
 (* (i) SCTPConn.Read                                                   *)
@@ -98,6 +98,34 @@ Theorem C16_hb_closed_after_drain :
     hq st1 = [] /\ got_msgs os2 = [].
 Proof. exact hb_errclosed_after_drain. Qed.
 Print Assumptions C16_hb_closed_after_drain.
+
+(* The same with hbConn.Read split into the selects it consists of (non-blocking
+   receive; blocking select with either ready case taken; inner receive after
+   closed), direct hand-over to a parked reader, and recvLoop blocked on the full
+   queue (hand-over on a pop, or the interval elapses and it closes): every
+   interleaving.  [fast] = the non-blocking receive is present or not; the
+   theorems need only the inner drain (the last argument [true]). *)
+Theorem C16_hb2_queue_prefix :
+  forall mx hb fast raw ops st' os,
+    h2_run mx hb fast true (h2_init raw) ops = (st', os) ->
+    exists F, got2 os ++ rheld (h2rd st') ++ h2q st' ++ lheld (h2loop st') ++ F = hb_filter mx hb raw.
+Proof. exact h2_queue_prefix. Qed.
+Print Assumptions C16_hb2_queue_prefix.
+
+Theorem C16_hb2_never_surfaces :
+  forall mx hb fast raw ops st' os,
+    hb <> [] -> h2_run mx hb fast true (h2_init raw) ops = (st', os) ->
+    Forall (fun m => fst m <> hb) (got2 os).
+Proof. exact h2_never_surfaces. Qed.
+Print Assumptions C16_hb2_never_surfaces.
+
+Theorem C16_hb2_closed_after_drain :
+  forall mx hb fast raw ops1 st1 os1 ops2 st2 os2,
+    h2_run mx hb fast true (h2_init raw) ops1 = (st1, os1) -> last os1 ONone = OErrClosed ->
+    h2_run mx hb fast true st1 ops2 = (st2, os2) ->
+    h2q st1 = [] /\ got2 os2 = [].
+Proof. exact h2_closed_after_drain. Qed.
+Print Assumptions C16_hb2_closed_after_drain.
 
 (* The server side end to end.  The full statement of the property ... *)
 Definition C16_server_read_concat_full_statement : Prop :=
